@@ -56,8 +56,9 @@ SENT_BITS = np.array([SENT]).view(np.uint64)[0]
 #   C28:ekinetic-stale      (fixed e04b1b088) e_kinetic one evaluation stale with the energy flag     ekinetic_probe
 #   C28:multiray-cull       (fixed 286c65cab) camera rangefinder misses surfaces (mj_multiRay cull)   multiray_probe
 #   C28:capsulebox-distmax  (fixed 4763a753d) capsule-box distance undetected for distmax > 1         capsulebox_probe
+#   C28:multiray-noncolliding (OPEN)          camera rangefinder misses geoms with contype=conaffinity=0 multiray_probe
 #   C28:ccd-concentric      (OPEN)            concentric convex geoms: distance 0 instead of the depth concentric_probe
-OPEN_FINDINGS = ('rk4-delay', 'ccd-concentric')
+OPEN_FINDINGS = ('rk4-delay', 'ccd-concentric', 'multiray-noncolliding')
 ACC_KINDS = ('accelerometer', 'framelinacc', 'frameangacc')
 
 
@@ -240,11 +241,13 @@ def check_case(ck, lib, gm, seed, nsteps, stats):
         int(m.body_dofnum[int(m.body_weldid[body])]) == 0):
       stats['findings']['excluded-static-acc-in-main-stream'] += 1     # 0 by construction of the generator
       continue
-    if 'multiray-cull' in OPEN_FINDINGS and kind == 'rangefinder' and int(m.sensor_objtype[i]) == E.mjOBJ_CAMERA:
-      # known finding C28:multiray-cull (mj_multiRay culls bodies with an unrotated bounding-sphere centre): camera
-      # rangefinders are law-checked by multiray_probe() only; here they take part in the isolation checks
+    if ('multiray-noncolliding' in OPEN_FINDINGS and kind == 'rangefinder' and int(m.sensor_objtype[i]) == E.mjOBJ_CAMERA
+        and np.any((np.array(m.geom_contype) == 0) & (np.array(m.geom_conaffinity) == 0))):
+      # known finding C28:multiray-noncolliding (mj_multiRay pre-culls whole bodies with the bounding sphere of the body
+      # BVH, which does not contain geoms with contype=conaffinity=0): camera rangefinders in models that contain such
+      # geoms are law-checked by multiray_probe() only; here they take part in the isolation checks
       stats['findings']['excluded-camera-rangefinder-in-main-stream'] += 1
-      stats['cov'][tag + '|isolation(camera-rangefinder: see multiray probe)'] += 1
+      stats['cov'][tag + '|isolation(camera-rangefinder with non-colliding geoms: see multiray probe)'] += 1
       continue
     r = so.expect(w, i, s)
     level = r.level if r.mode != 'none' else 'isolation'
@@ -500,6 +503,12 @@ def multiray_cases(draw):
     cams = ['cw']
     gm.info['base_xml'] = gm.info['base_xml'].replace('<worldbody>', '<worldbody><camera name="cw" pos="0.3 -0.4 1.2" '
                                                       'quat="0.9 0.3 0.1 0.2" resolution="3 2"/>', 1)
+  # some geoms become non-colliding (visual) geoms: rays must still see them
+  for g in gm.info['geoms']:
+    tag = '<geom name="%s"' % g
+    i0 = gm.info['base_xml'].index(tag)
+    if 'contype' not in gm.info['base_xml'][i0:gm.info['base_xml'].index('/>', i0)] and draw(st.integers(0, 3)) == 0:
+      gm.info['base_xml'] = gm.info['base_xml'].replace(tag, tag + ' contype="0" conaffinity="0"', 1)
   sens = []
   for k in range(draw(st.integers(1, 3))):
     a = dict(camera=draw(st.sampled_from(cams)))
@@ -545,7 +554,7 @@ def multiray_probe(ck, lib, n):
       p, R, b = w.frame(E.mjOBJ_CAMERA, cam)
       W, H = int(m.cam_resolution[cam][0]), int(m.cam_resolution[cam][1])
       f = 0.5 * H / np.tan(np.radians(float(m.cam_fovy[cam])) / 2)
-      missed = other = 0
+      missed = other = noncol = 0
       k = 0
       for row in range(H):
         for col in range(W):
@@ -564,14 +573,21 @@ def multiray_probe(ck, lib, n):
           multi = float(dist[0])
           if abs(single - ref) <= 1e-9 * (1 + abs(ref)) and ref >= 0 and (multi < 0 or multi > ref + 1e-9):
             missed += 1
+            g = int(gid[0])
+            lib.mj_ray(m, d, p, dr, None, 1, b, gid, None)
+            g = int(gid[0])
+            if g >= 0 and int(m.geom_contype[g]) == 0 and int(m.geom_conaffinity[g]) == 0:
+              noncol += 1
           else:
             other += 1
       msg = ('%s: got %r, documented %r; %d rays where mj_multiRay misses a surface that mj_ray and the reference hit, '
              '%d other mismatching rays\nseed=%d\n%s' % (s['xml'], got.tolist(), r.want.tolist(), missed, other, seed,
                                                        gs.build_xml(base, sens)))
       if missed and not other:
-        ck.violation(msg, dict(xml=gs.build_xml(base, sens), seed=seed), bucket='known:multiray-cull',
-                     fingerprint='C28:multiray-cull')
+        # every missed surface belongs to a non-colliding geom -> open finding; otherwise the (repaired) cull finding
+        fp = 'multiray-noncolliding' if noncol == missed else 'multiray-cull'
+        ck.violation(msg + '\n(%d of the missed surfaces belong to geoms with contype=conaffinity=0)' % noncol,
+                     dict(xml=gs.build_xml(base, sens), seed=seed), bucket='known:' + fp, fingerprint='C28:' + fp)
         hits[0] += 1
         continue
       raise Violation(msg, bucket='law:rangefinder-camera')
@@ -765,7 +781,7 @@ def main(ck):
           stats['findings'].get('excluded-static-acc-in-main-stream', 0),
       'rk4-delay: history sensors drawn without delay because integrator=RK4': stats.get('rk4_excluded', 0),
       'ekinetic-stale: e_kinetic replaced because the energy flag is enabled': stats.get('ekin_excluded', 0),
-      'multiray-cull: camera rangefinders kept isolation-only in the main stream':
+      'multiray-noncolliding: camera rangefinders in models with contype=conaffinity=0 geoms kept isolation-only':
           stats['findings'].get('excluded-camera-rangefinder-in-main-stream', 0),
       'capsulebox-distmax: collision sensors with a capsule-box pair restricted to cutoff <= 1':
           stats.get('capbox_excluded', 0),
